@@ -148,7 +148,7 @@ def plan(tier):
         pairs = [(a, e) for a in range(21) for e in range(8)]
     p4, n4 = gen.specialise("c04_roundtrip.py", [("roundtrip_layout", pairs), ("roundtrip_options", pairs)], "c08_gen4.py")
     conds = [Cond(p4, n, "main", T, "producer conformance: AAD, AL, key split, tag truncation, RSA padding, GCM-KW iv/tag, PBES2 salt/count, Concat-KDF Z and other-info (1PU: Ze||Zs, tag), raw DEFLATE (%s)" % n) for n in n4]
-    conds += [Cond("c02_jwe.py", n, "main", T, "consumer: " + n) for n in ("compact_dir", "compact_kw", "compact_gcmkw", "compact_rsa", "compact_ecdh", "compact_ecdhkw", "compact_pbes2", "flattened_json")]
+    conds += [Cond("c02_jwe.py", n, "main", T, "consumer: " + n) for n in ("compact_dir", "compact_kw", "compact_gcmkw", "compact_rsa", "compact_ecdh", "compact_ecdhkw", "compact_pbes2", "compact_1pu", "flattened_json")]
     conds += [Cond("c04_roundtrip.py", "witness", "witness", 300)]
     sizes = [(-1, -1, -1), (0, 0, -1), (1, 4, -1), (3, 2, 4)] if q else [(a, b, t) for a in (-1, 0, 1, 3, 4) for b in (-1, 0, 2, 4) for t in (-1, 0, 4)]
     obls = [Obl("vlib.props.c08", "concat_kdf_info", {"mode": m, "apu_len": a, "apv_len": b, "tag_len": t}, "Concat KDF other-info layout", 600)
